@@ -89,18 +89,22 @@ Fixpoint file_parts (att : Z) (fs : list mfile) : list part * bool :=
       end
   end.
 
-Definition field_parts (form : amap) : list part :=
-  flat_map (fun k => map (PField k) (hget k form)) (sort_keys (map fst form)).
+(* the form fields of a multipart body: the ordered pairs (SetOrderedFormData) in the caller's
+   order first, then the plain form data (keys sorted here, Go map order in the code) *)
+Definition fields := (list (bytes * bytes) * amap)%type.
+Definition field_parts (form : fields) : list part :=
+  map (fun kv => PField (fst kv) (snd kv)) (fst form) ++
+  flat_map (fun k => map (PField k) (hget k (snd form))) (sort_keys (map fst (snd form))).
 
 (* one pass of handleMultiPart: (the parts written, complete?), the sources afterwards *)
-Definition mp_pass (att : Z) (form : amap) (fs : list mfile) : (list part * bool) * list mfile :=
+Definition mp_pass (att : Z) (form : fields) (fs : list mfile) : (list part * bool) * list mfile :=
   ((field_parts form ++ fst (file_parts att fs), snd (file_parts att fs)), map mark_used fs).
 
 (* up to [n] attempts numbered att, att+1, ...: the bodies put on the wire (with: complete?), and
    whether the sequence was ended by an upload error.  Buffered variant: the body is built
    before the attempt, an error means no attempt.  Forced chunked encoding: the body is written
    into a pipe while the attempt runs, an error truncates that attempt's body. *)
-Fixpoint mp_attempts (chunked : bool) (n : nat) (att : Z) (form : amap) (fs : list mfile)
+Fixpoint mp_attempts (chunked : bool) (n : nat) (att : Z) (form : fields) (fs : list mfile)
   : list (list part * bool) * bool :=
   match n with
   | O => ([], false)
@@ -114,12 +118,12 @@ Fixpoint mp_attempts (chunked : bool) (n : nat) (att : Z) (form : amap) (fs : li
 
 (* Request.Do: refused up front (third component) when retries are enabled and an upload can be
    sent only once *)
-Definition mp_run (retryable chunked : bool) (n : nat) (form : amap) (fs : list mfile)
+Definition mp_run (retryable chunked : bool) (n : nat) (form : fields) (fs : list mfile)
   : list (list part * bool) * bool * bool :=
   if retryable && existsb upload_once_only fs then ([], false, true)
   else (mp_attempts chunked n 0 form fs, false).
 
 (* every field, every file complete *)
-Definition full_parts (form : amap) (fs : list mfile) : list part :=
+Definition full_parts (form : fields) (fs : list mfile) : list part :=
   field_parts form ++ map (fun f => mk_part f (mf_content f)) fs.
 End Upload.
